@@ -1,0 +1,16 @@
+//go:build verif
+
+package attestations
+
+// Exported wrappers for the external verification harness (build tag `verif` only).
+// Add-only: nothing here is compiled without the tag and no existing file is changed.
+
+// VerifVerifySignatures exposes (*ClientState).verifySignatures.
+func VerifVerifySignatures(cs *ClientState, proof *AttestationProof, attestationType AttestationType) error {
+	return cs.verifySignatures(proof, attestationType)
+}
+
+// VerifNormalizeSignature exposes normalizeSignature.
+func VerifNormalizeSignature(sig []byte) []byte {
+	return normalizeSignature(sig)
+}
